@@ -71,6 +71,7 @@ def floors(tier):
         "rows_compared": 10000 * k,
         "sim:runs": 250 * k,
         "proc:runs": 500 * k,
+        "decided:self_completed_runs": 300 * k,
     }
 
 
@@ -152,6 +153,8 @@ def expand(spec):
             # beyond the rung level it was paused at ("training script must not skip rung levels"):
             # outside C02; such workers report one level per poll
             p["plan"]["burst"] = 1
+        if rng.random() < 0.25:
+            p["sjwd"] = False  # Tuner asks the backend for the busy workers; jobs make progress between poll and query
         if rng.random() < 0.3:
             # training scripts that end by themselves before the last level (also in the run after a resume)
             p["plan"]["short"] = {f"{rng.randint(0, 12)}:{rng.choice([0, 0, 1])}": rng.randint(1, max_t) for _ in range(rng.randint(1, 4))}
@@ -168,8 +171,10 @@ def expand(spec):
     return p
 
 
-def check(o, events, rows, backend):
+def check(o, events, rows, backend, sjwd=True, exc=None):
     """Offline checker over the event log."""
+    self_completed = {}   # (trial, run) whose job ended by itself with exit code 0 -> [polls since, polls incl. the trial since]
+    polled_in_run = {}
     emitted = {}   # (trial, run) -> [uid...] in emission order
     deliv = {}     # (trial, run) -> [uid...] in delivery order
     decided = {}   # (trial, run) -> (uid of deciding result, decision)
@@ -197,8 +202,18 @@ def check(o, events, rows, backend):
             tuning_ended = True
         elif k == "c.loop_start":
             paused_in_iter = set()
+        elif k == "w.job_end" and not tuning_ended:
+            if pl.get("status") == "completed":
+                self_completed[(pl["trial"], pl.get("run"))] = [0, 0]  # polls since, polls that included the trial since
         elif k == "b.fetch_status_results.ret":
             batch = [(t, r.get("uid")) for t, r in pl["ret"]["results"]]
+            if not tuning_ended:
+                for key_, c_ in self_completed.items():
+                    c_[0] += 1
+                    if key_[0] in pl["ret"]["status"]:
+                        c_[1] += 1
+                for t_ in pl["ret"]["status"]:
+                    polled_in_run[(t_, cur_run.get(t_))] = polled_in_run.get((t_, cur_run.get(t_)), 0) + 1
         elif k in ("b.start_trial.ret",):
             cur_run[pl["ret"]["trial_id"]] = 0
         elif k == "b.resume_trial.ret":
@@ -279,6 +294,20 @@ def check(o, events, rows, backend):
             sig.append((key, len(dl), "C"))
         else:
             sig.append((key, len(dl), "open" if key not in failed else "F"))
+    # ground truth: the job ended by itself with exit code 0 (worker event), tuning went on for at least three more polls,
+    # no STOP / PAUSE decision was taken for the run: its whole sequence must have been delivered
+    sj = "" if sjwd else ":start_jobs_without_delay=False"
+    for key, (polls_since, polls_with_trial) in sorted(self_completed.items()):
+        if key in decided or key in failed or polls_since < 3 or exc is not None:
+            continue
+        em = emitted.get(key) or []
+        dl = deliv.get(key, [])
+        o.count("decided:self_completed_runs")
+        if len(dl) < len(em):
+            how = ("polled_after_exit_but_results_missing" if polls_with_trial else
+                   "never_polled" if not polled_in_run.get(key) else "dropped_from_polling_before_its_last_results_were_fetched")
+            o.violate("whole_sequence_when_completed", f"{backend}:self_completed_run_not_fully_delivered:{how}{sj}",
+                      {"run": key, "delivered": len(dl), "emitted": len(em), "polls_after_exit": polls_since})
     # runs that completed but delivered nothing at all
     for key in completed:
         if key not in deliv and emitted.get(key):
@@ -332,7 +361,7 @@ def run_case(spec):
                 if needle in msg:
                     tag = t
             o.violate("run_completes", f"{backend}:tuner_run_raised:{type(r.exc).__name__}{tag}", {"error": msg, "kind": spec["kind"]})
-    sig = check(o, r.rec.events, rows, backend)
+    sig = check(o, r.rec.events, rows, backend, sjwd=p.get("sjwd", True), exc=r.exc)
     for e in r.rec.events[-40:]:
         if e[1] in ("w.emit", "s.on_trial_result.ret", "b.pause_trial.ret", "b.stop_trial.ret", "b.resume_trial.ret", "b.start_trial.ret"):
             o.ev(e[0], e[1], {k: v for k, v in e[2].items() if k in ("trial_id", "trial", "run", "uid", "late", "ret") and not isinstance(v, dict)})
